@@ -42,6 +42,7 @@ var bits = map[string]int{"int": 64, "int8": 8, "int16": 16, "int32": 32, "int64
 type variable struct {
 	name string
 	typ  string
+	ro   bool // loop counter: never assigned by generated statements (termination)
 }
 
 type function struct {
@@ -92,7 +93,7 @@ func (g *gen) declare(typ string) string {
 	g.nvar++
 	name := fmt.Sprintf("v%d", g.nvar)
 	s := len(g.scopes) - 1
-	g.scopes[s] = append(g.scopes[s], variable{name, typ})
+	g.scopes[s] = append(g.scopes[s], variable{name: name, typ: typ})
 	return name
 }
 
@@ -107,12 +108,20 @@ func (g *gen) assignable(typ string) []string {
 			continue
 		}
 		for _, v := range s {
-			if v.typ == typ {
+			if v.typ == typ && !v.ro {
 				out = append(out, v.name)
 			}
 		}
 	}
 	return out
+}
+
+// declareRO declares a loop counter.
+func (g *gen) declareRO(typ string) string {
+	name := g.declare(typ)
+	s := len(g.scopes) - 1
+	g.scopes[s][len(g.scopes[s])-1].ro = true
+	return name
 }
 
 func (g *gen) varsOf(typ string) []string {
@@ -549,7 +558,7 @@ func (g *gen) stmtFor() {
 	switch g.pick("forkind", 5) {
 	case 0, 1:
 		g.push()
-		i := g.declare("int")
+		i := g.declareRO("int")
 		g.line("for %s := 0; %s < %d; %s++ {", i, i, 1+g.pick("bound", 4), i)
 		g.indent++
 		g.forBody()
@@ -559,7 +568,7 @@ func (g *gen) stmtFor() {
 		g.line("}")
 	case 2:
 		g.push()
-		c := g.declare("int")
+		c := g.declareRO("int")
 		g.line("%s := 0", c)
 		g.line("for %s < %d {", c, 1+g.pick("wbound", 4))
 		g.indent++
@@ -570,9 +579,10 @@ func (g *gen) stmtFor() {
 		g.pop()
 	case 3:
 		// range over a string literal or variable: index and rune
+		over := g.expr("string", 1)
 		g.push()
 		i, r := g.declare("int"), g.declare("int32")
-		g.line("for %s, %s := range %s {", i, r, g.expr("string", 1))
+		g.line("for %s, %s := range %s {", i, r, over)
 		g.indent++
 		g.line("_, _ = %s, %s", i, r)
 		g.rangeDepth++
@@ -599,7 +609,7 @@ func (g *gen) stmtFor() {
 			return
 		}
 		g.push()
-		i := g.declare("int")
+		i := g.declareRO("int")
 		g.line("for %s := %d; %s > 0; %s-- {", i, 1+g.pick("dbound", 3), i, i)
 		g.indent++
 		g.forBody()
@@ -646,22 +656,25 @@ func (g *gen) stmtSwitch() {
 	g.line("switch %s {", g.nonConst(typ, 1))
 	n := 1 + g.pick("ncases", 3)
 	seen := map[string]bool{}
+	var lits []string
 	for i := 0; i < n; i++ {
-		l := g.lit(typ)
-		if seen[l] {
-			continue
+		if l := g.lit(typ); !seen[l] {
+			seen[l] = true
+			lits = append(lits, l)
 		}
-		seen[l] = true
+	}
+	hasDefault := g.chance("default", 2)
+	for i, l := range lits {
 		g.line("case %s:", l)
 		g.indent++
 		g.block(1)
-		if i < n-1 && g.chance("fallthrough", 4) && !g.off["switch.fallthrough"] {
+		if (i < len(lits)-1 || hasDefault) && g.chance("fallthrough", 4) && !g.off["switch.fallthrough"] {
 			g.line("fallthrough")
 			g.feat("fallthrough")
 		}
 		g.indent--
 	}
-	if g.chance("default", 2) {
+	if hasDefault {
 		g.line("default:")
 		g.indent++
 		g.block(1)
@@ -674,10 +687,11 @@ func (g *gen) stmtSlice() {
 	g.feat("slice")
 	vs := g.varsOf("[]int")
 	if len(vs) == 0 || g.chance("newslice", 4) {
+		e1, e2, e3 := g.expr("int", 1), g.expr("int", 1), g.expr("int", 1)
 		name := g.declare("[]int")
 		switch g.pick("mk", 3) {
 		case 0:
-			g.line("%s := []int{%s, %s, %s}", name, g.expr("int", 1), g.expr("int", 1), g.expr("int", 1))
+			g.line("%s := []int{%s, %s, %s}", name, e1, e2, e3)
 		case 1:
 			g.line("%s := make([]int, %d, %d)", name, g.pick("mklen", 4), 4+g.pick("mkcap", 3))
 		default:
@@ -715,12 +729,13 @@ func (g *gen) stmtMap() {
 	g.feat("map")
 	vs := g.varsOf("map[string]int")
 	if len(vs) == 0 || g.chance("newmap", 5) {
+		e := g.expr("int", 1)
 		name := g.declare("map[string]int")
 		if g.chance("nilmap", 6) && !g.off["fault.nilmap"] {
 			g.line("var %s map[string]int", name)
 			g.feat("nil_map")
 		} else {
-			g.line("%s := map[string]int{\"a\": %s, \"b\": 2}", name, g.expr("int", 1))
+			g.line("%s := map[string]int{\"a\": %s, \"b\": 2}", name, e)
 		}
 		return
 	}
@@ -731,8 +746,9 @@ func (g *gen) stmtMap() {
 	case 2:
 		g.line("delete(%s, %s)", m, g.expr("string", 0))
 	case 3:
+		k := g.expr("string", 0)
 		v, ok := g.declare("int"), g.declare("bool")
-		g.line("%s, %s := %s[%s]", v, ok, m, g.expr("string", 0))
+		g.line("%s, %s := %s[%s]", v, ok, m, k)
 		g.feat("comma_ok")
 	default:
 		g.line("%s[%s] += %s", m, g.expr("string", 0), g.expr("int", 1))
@@ -749,8 +765,9 @@ func (g *gen) stmtStruct() {
 	ps := g.varsOf("*S0")
 	switch {
 	case len(vs) == 0 || g.chance("newstruct", 5):
+		ea, eb := g.expr("int", 1), g.expr("string", 1)
 		name := g.declare("S0")
-		g.line("%s := S0{A: %s, B: %s}", name, g.expr("int", 1), g.expr("string", 1))
+		g.line("%s := S0{A: %s, B: %s}", name, ea, eb)
 	case len(ps) == 0 && g.chance("newptr", 2):
 		name := g.declare("*S0")
 		if g.chance("nilptr", 6) && !g.off["fault.nilptr"] {
@@ -876,6 +893,7 @@ func (g *gen) stmtPanicky() {
 	g.line("}")
 	g.indent--
 	g.line("}()")
+	g.push() // body of the function literal
 	switch g.pick("pk", 7) {
 	case 0:
 		g.line("panic(%s)", g.expr("string", 1))
@@ -916,6 +934,7 @@ func (g *gen) stmtPanicky() {
 	default:
 		g.block(2)
 	}
+	g.pop()
 	g.indent--
 	g.line("}()")
 }
@@ -973,7 +992,7 @@ func (g *gen) genFunc(idx int) {
 	g.push()
 	for i, p := range f.params {
 		name := fmt.Sprintf("p%d_%d", idx, i)
-		g.scopes[len(g.scopes)-1] = append(g.scopes[len(g.scopes)-1], variable{name, p})
+		g.scopes[len(g.scopes)-1] = append(g.scopes[len(g.scopes)-1], variable{name: name, typ: p})
 		ps = append(ps, name+" "+p)
 	}
 	res := ""
@@ -1031,7 +1050,7 @@ func Gen(t *rapid.T, off Off) Prog {
 		g.noFault = true
 		e := g.expr(typ, 1)
 		g.noFault = false
-		g.scopes[0] = append(g.scopes[0], variable{name, typ})
+		g.scopes[0] = append(g.scopes[0], variable{name: name, typ: typ})
 		g.line("var %s %s = %s", name, typ, e)
 		g.feat("package_var")
 	}
